@@ -18,7 +18,7 @@ ENGINES = [
 ]
 CHECKS = {
     "C01": {"engine": "G+F", "design_ref": "DESIGN.md section 3 C01",
-            "technique": "static analysis: capture-scope def/use between grammar results names and parse actions, call binding against constructor signatures/annotations, marker-to-spelling chain, shape of named results (value / list / wrapped node) against the constructor's use; Class.Members.__init__ and collect_namespaces run by the analyser's interpreter on sample member sequences / parent chains (filed once per kind, source order, outermost-first paths)",
+            "technique": "static analysis: capture-scope def/use between grammar results names and parse actions, call binding against constructor signatures/annotations, marker-to-spelling chain, shape of named results (value / list / wrapped node) against the constructor's use; Class.Members.__init__ and collect_namespaces run by the analyser's interpreter on sample member sequences / parent chains (filed once per kind, source order, outermost-first paths); constructors of parser nodes checked for lossy rebinding / completed flags",
             "text": "Decides that nothing the grammar matches is dropped, invented or routed to another field "
                     "between the grammar and the node objects (every information point of every parse action's "
                     "capture scope is read; every read name is defined; constructor binding by arity, keyword "
@@ -27,28 +27,28 @@ CHECKS = {
                     "Does not decide which alternative the longest-match Or picks for ambiguous inputs.",
             "note": TB},
     "C02": {"engine": "F", "design_ref": "DESIGN.md section 3 C02",
-            "technique": "static analysis: interprocedural provenance ('instantiated-ness') of every type-carrying constructor parameter, recursion/worklist shape, substring-rewrite lint, qualifier-forwarding binding; the nested template-argument walk run by the analyser's interpreter on sample argument trees; provenance element-wise through tuple results",
+            "technique": "static analysis: interprocedural provenance ('instantiated-ness') of every type-carrying constructor parameter, recursion/worklist shape, substring-rewrite lint, qualifier-forwarding binding; the nested template-argument walk run by the analyser's interpreter on sample argument trees; provenance element-wise through tuple results; instantiate_type itself run on sample type expressions and spelled by the tool's own to_cpp; may-analysis that no primitive works on already substituted types",
             "text": "Decides that every type-carrying position of every node rebuilt by the instantiator is sent "
                     "through the substitution primitives, that the substitution reaches every nesting depth, "
                     "matches whole identifiers only, forwards qualifiers/names/defaults, and treats `This` by "
                     "equality. Does not decide value-level equality of the resulting spellings for all inputs.",
             "note": TB + "; type-carrying fields taken from the parser classes' own annotations"},
     "C03": {"engine": "E+F+G", "design_ref": "DESIGN.md section 3 C03",
-            "technique": "static analysis: node-kind / member-kind exhaustiveness between grammar, instantiator and emitter dispatch; dominance of filter/ignore/escape steps over the emissions they protect; guards of wrap_namespace read as constraints on the depth relative to the top namespace (abstract evaluation for d=-2..2); _partial_match and _gen_module_var evaluated by the analyser's interpreter on sample namespace paths; folded-template slot provenance; wrap_operators run on sample operators; keyword table evaluated against the keyword module",
+            "technique": "static analysis: node-kind / member-kind exhaustiveness between grammar, instantiator and emitter dispatch; dominance of filter/ignore/escape steps over the emissions they protect; guards of wrap_namespace read as constraints on the depth relative to the top namespace (abstract evaluation for d=-2..2); _partial_match and _gen_module_var evaluated by the analyser's interpreter on sample namespace paths; folded-template slot provenance; wrap_operators run on sample operators; keyword table evaluated against the keyword module; the whole class block produced by running wrap_instantiated_class on a sample class (members)",
             "text": "Decides that every node and member kind the instantiated tree can contain has an emitter, that "
                     "the top-namespace filter, the ignore test, the once-per-submodule declaration and the keyword "
                     "escape dominate the emissions they protect, and that namespace depth is computed relative to "
                     "the configured top namespace. Does not decide exactly-once per declaration for every input.",
             "note": TB + "; keyword.kwlist of CPython 3.12 is the reference list"},
     "C04": {"engine": "E", "design_ref": "DESIGN.md section 3 C04",
-            "technique": "static analysis: constant-folded emission templates with slot provenance; abstract evaluation of the method/static partition; sibling projections of one argument list; scope qualifier of free functions evaluated on sample paths and top-module settings; read-only choice evaluated over all marker combinations; name-taint of the free-function emitter",
+            "technique": "static analysis: constant-folded emission templates with slot provenance; abstract evaluation of the method/static partition; sibling projections of one argument list; scope qualifier of free functions evaluated on sample paths and top-module settings; read-only choice evaluated over all marker combinations; name-taint of the free-function emitter; class block by evaluation (forwarding); to_cpp of the instantiated callables on a templated instantiation",
             "text": "Decides the shape of every generated lambda/registration for all inputs (one argument list in "
                     "declared order for parameters, call and py::arg; default on its own parameter; def/def_static, "
                     "receiver and self parameter agree per member kind; return iff non-void; readonly iff const; "
                     "same-entity slots; operator shapes). Behaviour of the compiled binding is not decided.",
             "note": TB + "; pybind11 trusted"},
     "C05": {"engine": "I", "design_ref": "DESIGN.md section 3 C05",
-            "technique": "static analysis: inventory of id-allocation sites with affine offsets and template slot positions, single-writer/allocator shape, text-reaches-output on every path, bounded abstract execution of the two replay loops over symbolic map entries; role tuple of each allocation inside an overload loop tied to the loop's own element; hand-written gateway spellings compared with _wrapper_name()",
+            "technique": "static analysis: inventory of id-allocation sites with affine offsets and template slot positions, single-writer/allocator shape, text-reaches-output on every path, bounded abstract execution of the two replay loops over symbolic map entries; role tuple of each allocation inside an overload loop tied to the loop's own element; hand-written gateway spellings compared with _wrapper_name(); the .m emitters and generate_collector_function run on sample declarations: ids passed = ids registered, each branch's id belongs to its overload, each routine checks / unwraps / calls for its overload; pointer-constructor text for virtual x base combinations",
             "text": "Decides the whole numbering protocol by an inductive argument whose premises are checked: single "
                     "writer, allocator shape, every allocated id embedded once as first gateway argument, affine "
                     "offsets (incl. the virtual pair), the two replay loops produce one case per id routed to the "
@@ -56,7 +56,7 @@ CHECKS = {
                     "user names. Correctness of the routine bodies is C06/C11.",
             "note": TB + "; abstract execution models only the statement forms the loops use (else ANALYSIS-ERROR)"},
     "C06": {"engine": "E+F", "design_ref": "DESIGN.md section 3 C06",
-            "technique": "static analysis: path enumeration of per-argument index counters, normal-form comparison of the two MATLAB type-check builders, role table (unwrap start / nargin adjustment / receiver / .m call shape), structural shape of default expansion, marshalling-table priority, enum-context provenance per role, whole-scope enum look-up, pair element selected by output position",
+            "technique": "static analysis: path enumeration of per-argument index counters, normal-form comparison of the two MATLAB type-check builders, role table (unwrap start / nargin adjustment / receiver / .m call shape), structural shape of default expansion, marshalling-table priority, enum-context provenance per role, whole-scope enum look-up, pair element selected by output position; both guard builders run on sample parameter lists and compared; routines of a sample run compared with their overloads",
             "text": "Decides that position indexes advance once per argument on every path, that the two MATLAB-side guard "
                     "builders agree, that per role the C++ unwrap offsets, the expected counts and the .m call shapes are "
                     "mutually consistent, that default expansion has the peel-from-the-tail / rebuild-from-backup shape, "
@@ -82,28 +82,28 @@ CHECKS = {
                     "that names/spellings come from one helper that capitalises position 0 only.",
             "note": TB + "; itertools.product ordering as documented"},
     "C09": {"engine": "E", "design_ref": "DESIGN.md section 3 C09",
-            "technique": "static analysis: slot completeness and delimiter balance of every folded template (by induction over slot values), string-kind adjacency, re-use of C04/B1 and C02/S1-S2; emitters for free functions / methods / static methods run on sample declarations, emitted lambda checked (names passed are the lambda's own parameters)",
+            "technique": "static analysis: slot completeness and delimiter balance of every folded template (by induction over slot values), string-kind adjacency, re-use of C04/B1 and C02/S1-S2; emitters for free functions / methods / static methods run on sample declarations, emitted lambda checked (names passed are the lambda's own parameters); class block by evaluation (balanced, one statement); docstring literal round trip through a byte-level decoder of C++ narrow literals",
             "text": "Decides well-formedness conditions of the emitted C++ that are visible in the templates: no "
                     "missing/unused placeholder, balanced delimiters in every literal skeleton, no namespace prefix "
                     "in front of expression text, lambda/keyword arity, no unsubstituted parameter. 'Compiles against "
                     "any conforming library' needs a compiler and the library and is not decided.",
             "note": TB},
     "C10": {"engine": "E+F", "design_ref": "DESIGN.md section 3 C10",
-            "technique": "static analysis: guard pairing of preamble fragments, enumerate-from-zero shape, package paths of all sibling sites evaluated by the analyser on sample namespace lists (depth 1 and 3), unconditional concatenation of classdef parts, single MEX-source entry, overload grouping by name, must-definition analysis of per-class scalar state; guards of the free-function file append in wrap_methods (name-independent, dead filters recognised)",
+            "technique": "static analysis: guard pairing of preamble fragments, enumerate-from-zero shape, package paths of all sibling sites evaluated by the analyser on sample namespace lists (depth 1 and 3), unconditional concatenation of classdef parts, single MEX-source entry, overload grouping by name, must-definition analysis of per-class scalar state; guards of the free-function file append in wrap_methods (name-independent, dead filters recognised); guards of the deserialize pair; registration-before-fill of namespace lists",
             "text": "Decides that collector/clean-up/RTTI fragments are emitted under the right (paired) conditions for "
                     "every registered class, enumerators are numbered from 0 in declared order, all entity kinds "
                     "derive their +package path by one normal form, the classdef always contains its mandatory parts "
                     "and names its base, and exactly one MEX source entry exists. File contents are C05/C06/C11.",
             "note": TB},
     "C11": {"engine": "E+X", "design_ref": "DESIGN.md section 3 C11",
-            "technique": "static analysis: per-routine ownership obligations on constant-folded, tokenised C++ routine templates (create=>register, destroy-once, unload hook, base handle, ownership form of returned handles) + memo-key completeness + clang AST handle protocol of matlab.h + id-role inventory (every id carries its role; holes only as the virtual up-cast slot) + pair element by position; clang AST conversion chains of wrap<T> (helpers expanded in place) checked for lossy steps",
+            "technique": "static analysis: per-routine ownership obligations on constant-folded, tokenised C++ routine templates (create=>register, destroy-once, unload hook, base handle, ownership form of returned handles) + memo-key completeness + clang AST handle protocol of matlab.h + id-role inventory (every id carries its role; holes only as the virtual up-cast slot) + pair element by position; clang AST conversion chains of wrap<T> (helpers expanded in place) checked for lossy steps; pointer-constructor text, guard builders and routines by evaluation; string converter forms",
             "text": "Decides per-routine ownership obligations (each allocated handle registered and returned, destructor "
                     "erases then deletes once, unload hook before first registration, base handle handed over in the "
                     "right slot, handle protocol in matlab.h read as written). Call histories under MATLAB's lifetime "
                     "rules and exceptions between allocation and registration are not decided.",
             "note": TB + "; clang 14 + /verif/stubs as in C18"},
     "C12": {"engine": "G", "design_ref": "DESIGN.md section 3 C12",
-            "technique": "static analysis: grammar reconstruction + layout classification of terminals/combinators; character-run terminals checked against comment openers",
+            "technique": "static analysis: grammar reconstruction + layout classification of terminals/combinators; character-run terminals checked against comment openers; taint from read() to the parse: the text is only concatenated",
             "text": "Decides the necessary structural conditions for layout/comment independence of parsing: "
                     "comment skipper installed on the parse root and covering the whole grammar, no "
                     "layout-sensitive terminal or combinator outside the documented verbatim zones, single "
@@ -111,7 +111,7 @@ CHECKS = {
                     "byte-identical generator output (follows from equal trees + C14).",
             "note": TB},
     "C13": {"engine": "F", "design_ref": "DESIGN.md section 3 C13",
-            "technique": "static analysis: ownership along access paths (shallow vs deep copies, re-bound attributes, local helpers, accessors and constructors followed; reaching definitions, accumulator parameters, closures), key-only use of template parameter names, no shared module/class state; wrapper attributes filled per class may guard book-keeping only (closure of wrap_instantiated_class); ownership through accessors",
+            "technique": "static analysis: ownership along access paths (shallow vs deep copies, re-bound attributes, local helpers, accessors and constructors followed; reaching definitions, accumulator parameters, closures), key-only use of template parameter names, no shared module/class state; wrapper attributes filled per class may guard book-keeping only (closure of wrap_instantiated_class); ownership through accessors; instantiate_type purity by evaluation; order of combinations by evaluation with parameter names that sort against their declaration order",
             "text": "Decides the aliasing discipline that makes instantiations independent: every in-place "
                     "modification in the instantiator hits a freshly created value; lists handed to the re-parenting "
                     "Class constructor are rebuilt; parameter names are lookup keys only; no cross-run state in "
@@ -132,21 +132,21 @@ CHECKS = {
                     "is tested before use. Equivalence with deleting the declaration for all inputs is not re-proved.",
             "note": TB},
     "C16": {"engine": "F+E", "design_ref": "DESIGN.md section 3 C16",
-            "technique": "static analysis: separator provenance of the parsed text, agreement of folded initialiser templates (declaration/definition/call/module variable), CLI option plumbing table with None-reachability, abstract interpretation of the namespace-option normalisation over spelling classes in both scripts, aliasing rule on entry-point parameters, must-pass-through (every normal exit of wrap / wrap_submodule preceded by the write of the generated text), agreement of the cmake command lines with the scripts' declared options and of expected with written file names",
+            "technique": "static analysis: separator provenance of the parsed text, agreement of folded initialiser templates (declaration/definition/call/module variable), CLI option plumbing table with None-reachability, abstract interpretation of the namespace-option normalisation over spelling classes in both scripts, aliasing rule on entry-point parameters, must-pass-through (every normal exit of wrap / wrap_submodule preceded by the write of the generated text), agreement of the cmake command lines with the scripts' declared options and of expected with written file names; initialiser names computed by slice evaluation of wrap / wrap_file / wrap_submodule on sample file lists",
             "text": "Decides that file contents are separated before parsing, that the main file and submodules agree on "
                     "initialiser name, signature and module variable, that every CLI option reaches its API keyword "
                     "and a possibly-None option never reaches a membership test, and that both scripts normalise the "
                     "top namespace identically. Linking/importing the combined module is not decided.",
             "note": TB + "; argparse semantics as documented"},
     "C17": {"engine": "E+F", "design_ref": "DESIGN.md section 3 C17",
-            "technique": "static analysis: confinement of the XML configuration to one template slot, Engler-style contradiction rule for Optional results with path facts, handler coverage, index bound as guard implication, path enumeration of the name filter, def-use reachability of looked-up elements, counter-key provenance, regex-AST analysis of the literal encoder; XPath of the index query parsed (steps and predicates)",
+            "technique": "static analysis: confinement of the XML configuration to one template slot, Engler-style contradiction rule for Optional results with path facts, handler coverage, index bound as guard implication, path enumeration of the name filter, def-use reachability of looked-up elements, counter-key provenance, regex-AST analysis of the literal encoder; XPath of the index query parsed (steps and predicates); filter_member_defs run on sample member definitions (falsy sample elements); docstring literal round trip",
             "text": "Decides that XML configuration influences only the docstring slot (empty without XML), that "
                     "Optional XML results are never dereferenced without a dominating test, that unreadable/malformed "
                     "XML becomes an empty docstring, that the overload index is bounded and that class/method/argument "
                     "names select the documented member. Exact decoding of the literal for all Unicode is not decided.",
             "note": TB + "; ElementTree find()/text may be None"},
     "C18": {"engine": "X", "design_ref": "DESIGN.md section 3 C18",
-            "technique": "static analysis: clang -fsyntax-only AST (JSON) of matlab.h against declaration-only stubs; writer/reader table agreement, guard-before-use ordering, typed/bounded raw stores, loop-nest shape and loop-header comparison, truth-table comparison of every error guard, argument checks of array-creating and MATLAB-calling functions; conversion chains from the wrapped value to the raw store (implicit and explicit casts, locals, helper parameters) checked for lossy steps",
+            "technique": "static analysis: clang -fsyntax-only AST (JSON) of matlab.h against declaration-only stubs; writer/reader table agreement, guard-before-use ordering, typed/bounded raw stores, loop-nest shape and loop-header comparison, truth-table comparison of every error guard, argument checks of array-creating and MATLAB-calling functions; conversion chains from the wrapped value to the raw store (implicit and explicit casts, locals, helper parameters) checked for lossy steps; copy loops of wrap / unwrap for vectors and matrices run by an interpreter over the clang AST on sample arrays with symbolic cells",
             "text": "Decides the structural conditions of loss-free conversion in matlab.h: wrap/unwrap tables "
                     "agree; scalar readers check shape first and read through their own type; raw stores are "
                     "typed and fit the created array (LP64, and ILP32 in the thorough tier); vector/matrix "
